@@ -8,26 +8,22 @@ set_option linter.unusedSimpArgs false
 
 namespace Mrm
 
-/-- a child list on which the lookups behave: the IDs of the `tag` children are non-blank and unique -/
+/-- a child list on which the lookups behave: the non-blank IDs of the `tag` children are unique
+    (blank or missing IDs may occur any number of times: no lookup finds them) -/
 structure Good (tag : String) (cs : List Xml) : Prop where
-  nd : (keysOf tag cs).Nodup
-  sm : ∀ x ∈ keysOf tag cs, x.isSome = true
+  nd : SomeNodup (keysOf tag cs)
 
 /-- the outcome has no error, the given key sequence, and the same non-`tag` children -/
 def Eff (tag : String) (cs : List Xml) (o : Out) (newkeys : List Key) : Prop :=
   o.err = none ∧ keysOf tag o.kids = newkeys ∧ nk (kt tag) o.kids = nk (kt tag) cs
 
-theorem Good.locate_mem {tag : String} {cs : List Xml} (g : Good tag cs) {id : Key}
-    (h : id ∈ keysOf tag cs) : locate tag cs id = some (idx (kt tag) cs id) :=
-  locate_of_mem h (g.sm id h)
-
-theorem Good.nd' {tag : String} {cs : List Xml} (g : Good tag cs) : (ks (kt tag) cs).Nodup := by
+theorem Good.nd' {tag : String} {cs : List Xml} (g : Good tag cs) : SomeNodup (ks (kt tag) cs) := by
   rw [← keysOf_eq_ks]; exact g.nd
 
 theorem deleteLoop_eff (tag : String) (w : Warn) (ids : List Key) :
     ∀ (cs : List Xml) (ws : List Warn), Good tag cs →
       Eff tag cs (deleteLoop tag w none cs ids ws)
-        ((keysOf tag cs).filter (fun x => !ids.contains x)) := by
+        ((keysOf tag cs).filter (fun x => !(x.isSome && ids.contains x))) := by
   induction ids with
   | nil =>
     intro cs ws g
@@ -38,49 +34,59 @@ theorem deleteLoop_eff (tag : String) (w : Warn) (ids : List Key) :
     intro cs ws g
     unfold deleteLoop
     rw [findChildId_ok tag cs id]
-    by_cases hm : id ∈ keysOf tag cs
-    · rw [g.locate_mem hm]
+    by_cases hm : id.isSome = true ∧ id ∈ keysOf tag cs
+    · obtain ⟨hsm, hm⟩ := hm
+      rw [locate_of_mem hm hsm]
       simp only
       have hm' : id ∈ ks (kt tag) cs := by rw [← keysOf_eq_ks]; exact hm
-      obtain ⟨e1, e2⟩ := eraseIdx_idx (kt tag) g.nd' hm'
+      obtain ⟨e1, e2⟩ := eraseIdx_idx (kt tag) g.nd' hm' hsm
       rw [← keysOf_eq_ks, ← keysOf_eq_ks] at e1
       have g' : Good tag (cs.eraseIdx (idx (kt tag) cs id)) := by
-        refine ⟨?_, ?_⟩
-        · rw [e1]; exact g.nd.sublist List.filter_sublist
-        · rw [e1]; intro x hx; exact g.sm x (List.mem_filter.mp hx).1
+        refine ⟨?_⟩
+        rw [e1]; exact g.nd.sublist List.filter_sublist
       obtain ⟨h1, h2, h3⟩ := ih _ ws g'
       refine ⟨h1, ?_, h3.trans e2⟩
       rw [h2, e1, List.filter_filter]
       apply List.filter_congr
       intro x _
-      by_cases hx : x = id <;> simp [List.contains_cons, hx]
-    · rw [locate_of_not_mem hm]
+      by_cases hx : x = id
+      · subst hx; simp [List.contains_cons, hsm]
+      · simp [List.contains_cons, hx]
+    · have hloc : locate tag cs id = none := by
+        cases id with
+        | none => rfl
+        | some k => exact locate_of_not_mem (fun h => hm ⟨rfl, h⟩)
+      rw [hloc]
       simp only
       obtain ⟨h1, h2, h3⟩ := ih cs (ws ++ [w]) g
       refine ⟨h1, ?_, h3⟩
       rw [h2]
       apply List.filter_congr
       intro x hx
-      have : x ≠ id := by intro e; subst e; exact hm hx
-      simp [List.contains_cons, this]
+      by_cases hxs : x.isSome = true
+      · have : x ≠ id := by intro e; subst e; exact hm ⟨hxs, hx⟩
+        simp [List.contains_cons, this]
+      · simp [hxs]
 
 /-! ### lookups of present keys -/
 
-theorem Good.findChildId_mem {tag : String} {cs : List Xml} (g : Good tag cs) {id : Key}
-    (h : id ∈ keysOf tag cs) : findChildId cs tag id = .ok (some (idx (kt tag) cs id)) := by
-  rw [findChildId_ok tag cs id, g.locate_mem h]
+theorem findChildId_mem {tag : String} {cs : List Xml} {id : Key}
+    (h : id ∈ keysOf tag cs) (hs : id.isSome = true) :
+    findChildId cs tag id = .ok (some (idx (kt tag) cs id)) := by
+  rw [findChildId_ok tag cs id, locate_of_mem h hs]
 
-theorem Good.findRequired_mem {tag : String} {cs : List Xml} (g : Good tag cs) (mid : Option PyExc)
-    {id : Key} (h : id ∈ keysOf tag cs) : findRequired tag mid cs id = .ok (idx (kt tag) cs id) := by
-  rw [findRequired_ok tag mid cs id, g.locate_mem h]
+theorem findRequired_mem {tag : String} {cs : List Xml} (mid : Option PyExc)
+    {id : Key} (h : id ∈ keysOf tag cs) (hs : id.isSome = true) :
+    findRequired tag mid cs id = .ok (idx (kt tag) cs id) := by
+  rw [findRequired_ok tag mid cs id, locate_of_mem h hs]
 
-theorem Good.findTarget_mem {tag : String} {cs : List Xml} (g : Good tag cs) (mid : Option PyExc)
-    {id : Key} (h : id ∈ keysOf tag cs) : findTarget tag mid cs id = .ok (some (idx (kt tag) cs id)) := by
+theorem findTarget_mem {tag : String} {cs : List Xml} (mid : Option PyExc)
+    {id : Key} (h : id ∈ keysOf tag cs) (hs : id.isSome = true) :
+    findTarget tag mid cs id = .ok (some (idx (kt tag) cs id)) := by
   rw [findTarget_ok tag mid cs id]
-  have hs := g.sm id h
   cases id with
   | none => cases hs
-  | some k => simp only [g.locate_mem h]
+  | some k => simp only [locate_of_mem h hs]
 
 theorem idx_inj {α : Type} (kt : α → Option Key) {cs : List α} {s t : Key} (hs : s ∈ ks kt cs)
     (ht : t ∈ ks kt cs) (h : idx kt cs s = idx kt cs t) : s = t := by
@@ -127,25 +133,25 @@ theorem insertDedup_closed_o (ex : List (Option String)) (ss : List Xml) :
       simp only [h, Bool.false_eq_true, if_false, List.filter_cons, Bool.not_false, if_true, insertMany]
       exact ih _ _ _
 
-theorem insertBefore_eff {tag : String} {cs : List Xml} (g : Good tag cs) (t : Key) (xs : List Xml)
-    (hx : ∀ x ∈ xs, x.tag = tag) (ht : t = none ∨ t ∈ keysOf tag cs) :
+theorem insertBefore_eff {tag : String} {cs : List Xml} (t : Key) (xs : List Xml)
+    (hx : ∀ x ∈ xs, x.tag = tag) (ht : t.isSome = true → t ∈ keysOf tag cs) :
     Eff tag cs (insertBefore tag none cs t xs)
       (insBefore (endIfBlank t) (xs.map (keyOf tag)) (keysOf tag cs)) := by
   unfold insertBefore
-  rcases ht with rfl | ht
-  · simp only [findTarget, insertMany_eq_insertAt, endIfBlank]
+  cases t with
+  | none =>
+    simp only [findTarget, insertMany_eq_insertAt, endIfBlank]
     obtain ⟨e1, e2⟩ := insertAt_end (kt tag) cs xs (keyed_tagged hx)
     refine ⟨rfl, ?_, e2⟩
     rw [keysOf_eq_ks, keysOf_eq_ks, e1, ks_tagged hx]
-  · rw [g.findTarget_mem none ht]
+  | some k =>
+    have ht := ht rfl
+    rw [findTarget_mem none ht rfl]
     simp only [insertMany_eq_insertAt]
-    have ht' : t ∈ ks (kt tag) cs := by rw [← keysOf_eq_ks]; exact ht
+    have ht' : some k ∈ ks (kt tag) cs := by rw [← keysOf_eq_ks]; exact ht
     obtain ⟨e1, e2⟩ := insertAt_idx (kt tag) ht' xs (keyed_tagged hx)
     refine ⟨rfl, ?_, e2⟩
-    have hs := g.sm t ht
-    cases t with
-    | none => cases hs
-    | some k => rw [keysOf_eq_ks, keysOf_eq_ks, e1, ks_tagged hx]; rfl
+    rw [keysOf_eq_ks, keysOf_eq_ks, e1, ks_tagged hx]; rfl
 
 theorem replaceAt_eff {tag : String} {cs : List Xml} (t : Key) (xs : List Xml)
     (hx : ∀ x ∈ xs, x.tag = tag) (ht : t ∈ keysOf tag cs) :
@@ -160,9 +166,10 @@ theorem replaceAt_eff {tag : String} {cs : List Xml} (t : Key) (xs : List Xml)
 
 /-! ### moves and swaps -/
 
-theorem collectSources_closed {tag : String} {cs : List Xml} (g : Good tag cs) (mid : Option PyExc)
+theorem collectSources_closed {tag : String} {cs : List Xml} (_g : Good tag cs) (mid : Option PyExc)
     (target : Option Nat) (sources : List Key) :
-    ∀ (pre : List Key), (∀ s ∈ pre ++ sources, s ∈ keysOf tag cs) → (pre ++ sources).Nodup →
+    ∀ (pre : List Key), (∀ s ∈ pre ++ sources, s ∈ keysOf tag cs ∧ s.isSome = true) →
+      (pre ++ sources).Nodup →
       (∀ s ∈ sources, target ≠ some (idx (kt tag) cs s)) →
       collectSources tag mid cs target sources (pre.map (idx (kt tag) cs)) =
         .ok ((pre ++ sources).map (idx (kt tag) cs)) := by
@@ -171,8 +178,8 @@ theorem collectSources_closed {tag : String} {cs : List Xml} (g : Good tag cs) (
   | cons s ss ih =>
     intro pre hmem hnd htgt
     unfold collectSources
-    have hs : s ∈ keysOf tag cs := hmem s (by simp)
-    rw [g.findChildId_mem hs]
+    have hs : s ∈ keysOf tag cs := (hmem s (by simp)).1
+    rw [findChildId_mem hs (hmem s (by simp)).2]
     simp only
     have h1 : (target == some (idx (kt tag) cs s)) = false := by
       have := htgt s List.mem_cons_self
@@ -182,40 +189,46 @@ theorem collectSources_closed {tag : String} {cs : List Xml} (g : Good tag cs) (
       intro hc
       simp only [List.contains_eq_mem, List.mem_map, decide_eq_true_eq] at hc
       obtain ⟨p, hp, he⟩ := hc
-      have hp' : p ∈ ks (kt tag) cs := by rw [← keysOf_eq_ks]; exact hmem p (by simp [hp])
+      have hp' : p ∈ ks (kt tag) cs := by rw [← keysOf_eq_ks]; exact (hmem p (by simp [hp])).1
       have hs' : s ∈ ks (kt tag) cs := by rw [← keysOf_eq_ks]; exact hs
       have := idx_inj (kt tag) hp' hs' he
       subst this
       rw [List.nodup_append] at hnd
       exact hnd.2.2 p hp p List.mem_cons_self rfl
     simp only [h1, h2, Bool.or_self, Bool.false_eq_true, if_false]
-    have := ih (pre ++ [s]) (by simpa using hmem) (by simpa using hnd)
+    have := ih (pre ++ [s]) (by intro x hx; exact hmem x (by simpa using hx)) (by simpa using hnd)
       (fun x hx => htgt x (List.mem_cons_of_mem _ hx))
     simpa using this
 
 theorem moveMany_eff {tag : String} {cs : List Xml} (g : Good tag cs) (t : Key) (sources : List Key)
-    (ht : t = none ∨ t ∈ keysOf tag cs) (hs : ∀ s ∈ sources, s ∈ keysOf tag cs)
+    (ht : t.isSome = true → t ∈ keysOf tag cs) (hs : ∀ s ∈ sources, s ∈ keysOf tag cs)
+    (hsm : ∀ s ∈ sources, s.isSome = true)
     (hn : sources.Nodup) (hts : t ∉ sources) :
     Eff tag cs (moveMany tag none cs t sources)
       (insBefore (endIfBlank t) sources ((keysOf tag cs).filter (fun x => !sources.contains x))) := by
   have hs' : ∀ s ∈ sources, s ∈ ks (kt tag) cs := by
     intro s h; rw [← keysOf_eq_ks]; exact hs s h
+  have hboth : ∀ s ∈ [] ++ sources, s ∈ keysOf tag cs ∧ s.isSome = true := by
+    intro s h; exact ⟨hs s (by simpa using h), hsm s (by simpa using h)⟩
   unfold moveMany
-  rcases ht with rfl | ht
-  · simp only [findTarget]
-    have := collectSources_closed g none none sources [] (by simpa using hs) (by simpa using hn)
+  cases t with
+  | none =>
+    simp only [findTarget]
+    have := collectSources_closed g none none sources [] hboth (by simpa using hn)
       (by intro s _ h; cases h)
     simp only [List.map_nil, List.nil_append] at this
     rw [this]
     simp only
-    refine ⟨rfl, ?_, moveNodes_nk (kt tag) g.nd' hs' none⟩
-    rw [keysOf_eq_ks, keysOf_eq_ks, moveNodes_keys_end (kt tag) g.nd' hs']
+    refine ⟨rfl, ?_, moveNodes_nk (kt tag) g.nd' hs' hsm none⟩
+    rw [keysOf_eq_ks, keysOf_eq_ks, moveNodes_keys_end (kt tag) g.nd' hs' hsm]
     rfl
-  · rw [g.findTarget_mem none ht]
+  | some k =>
+    have ht := ht rfl
+    rw [findTarget_mem none ht rfl]
     simp only
-    have ht' : t ∈ ks (kt tag) cs := by rw [← keysOf_eq_ks]; exact ht
-    have := collectSources_closed g none (some (idx (kt tag) cs t)) sources []
-      (by simpa using hs) (by simpa using hn)
+    have ht' : some k ∈ ks (kt tag) cs := by rw [← keysOf_eq_ks]; exact ht
+    have := collectSources_closed g none (some (idx (kt tag) cs (some k))) sources [] hboth
+      (by simpa using hn)
       (by
         intro s hs1 h
         have := idx_inj (kt tag) ht' (hs' s hs1) (Option.some.inj h)
@@ -223,21 +236,18 @@ theorem moveMany_eff {tag : String} {cs : List Xml} (g : Good tag cs) (t : Key) 
     simp only [List.map_nil, List.nil_append] at this
     rw [this]
     simp only
-    refine ⟨rfl, ?_, moveNodes_nk (kt tag) g.nd' hs' (some (idx (kt tag) cs t))⟩
-    rw [keysOf_eq_ks, keysOf_eq_ks, moveNodes_keys (kt tag) g.nd' hs' ht' hts]
-    have hsm := g.sm t ht
-    cases t with
-    | none => cases hsm
-    | some k => rfl
+    refine ⟨rfl, ?_, moveNodes_nk (kt tag) g.nd' hs' hsm (some (idx (kt tag) cs (some k)))⟩
+    rw [keysOf_eq_ks, keysOf_eq_ks, moveNodes_keys (kt tag) g.nd' hs' hsm ht' rfl hts]
+    rfl
 
 theorem swapTwo_eff {tag : String} {cs : List Xml} (g : Good tag cs) (a b : Key)
-    (ha : a ∈ keysOf tag cs) (hb : b ∈ keysOf tag cs) :
+    (ha : a ∈ keysOf tag cs) (hb : b ∈ keysOf tag cs) (hsa : a.isSome = true) (hsb : b.isSome = true) :
     Eff tag cs (swapTwo tag none cs [a, b]) (swapKeys a b (keysOf tag cs)) := by
   unfold swapTwo
-  simp only [unpack2, g.findRequired_mem none ha, g.findRequired_mem none hb]
+  simp only [unpack2, findRequired_mem none ha hsa, findRequired_mem none hb hsb]
   have ha' : a ∈ ks (kt tag) cs := by rw [← keysOf_eq_ks]; exact ha
   have hb' : b ∈ ks (kt tag) cs := by rw [← keysOf_eq_ks]; exact hb
-  obtain ⟨e1, e2⟩ := swap_idx (kt tag) g.nd' ha' hb'
+  obtain ⟨e1, e2⟩ := swap_idx (kt tag) g.nd' ha' hb' hsa hsb
   refine ⟨rfl, ?_, e2⟩
   rw [keysOf_eq_ks, keysOf_eq_ks, e1]
 
